@@ -161,6 +161,7 @@ class Ctx:
         self.floor_fork = None
         self.floor_list = []
         self.inputs = {}  # name -> z3 const (harness inputs, for model extraction)
+        self.free_choices = {}  # name -> concrete value chosen by an unconstrained fork
         self.notes = []
 
     # -- fresh symbols
@@ -230,6 +231,20 @@ class Ctx:
                 self.pending.append(self.decisions + [("c", other)])
         self.decisions.append(("c", k))
         self.pc.append(conds[k])
+        return k
+
+    def choose_free(self, n):
+        """fork over n unconstrained alternatives (no solver involved); returns the index"""
+        i = len(self.decisions)
+        if i < len(self.preset):
+            d = self.preset[i]
+            assert d[0] == "f"
+            k = d[1]
+        else:
+            k = 0
+            for other in range(n - 1, 0, -1):
+                self.pending.append(self.decisions + [("f", other)])
+        self.decisions.append(("f", k))
         return k
 
     def choose_trunc(self, x):
